@@ -84,7 +84,11 @@ func (r *round1) Update(msg model.ConsensusMessage) *Error {
 		return nil
 	}
 
-	// check data
+	// check data: the share must be over the hash of the block being signed
+	if si.GetDataHash() != bh.Hash {
+		r.logger.Errorf("sign data hash not match, id: %s. hash: %s, signed: %s, height: %d", si.GetSignerID().GetHexString(), bh.Hash.String(), si.GetDataHash().String(), bh.Height)
+		return nil
+	}
 	if !si.VerifySign(pk) {
 		r.logger.Errorf("fail to verify sign, id: %s. hash: %s, height: %d", si.GetSignerID().GetHexString(), cvm.BlockHash.String(), bh.Height)
 		return nil
